@@ -6,6 +6,7 @@ import Proofs.C10NtsNodup
 import Proofs.C10NtsSpec
 import Proofs.C10SpecDedup
 import Proofs.C10NtsLookup
+import Proofs.C10Ring
 /-!
 # C10 — replica sets for a token equal Cassandra's placement  (property theorems)
 
@@ -21,7 +22,7 @@ any number of tokens per node, datacenters, racks, replication factors incl. 0 /
 to the ring.  The old failing inputs are kept as regression `example`s at the end.
 -/
 namespace C10
-open Placement C10Lookup C10Simple C10Nts C10NtsNodup C10NtsSpec C10SpecDedup C10NtsLookup
+open Placement C10Lookup C10Simple C10Nts C10NtsNodup C10NtsSpec C10SpecDedup C10NtsLookup C10Ring
 
 /-! ## ring lookup -/
 
@@ -387,6 +388,76 @@ theorem C10_nts_lookup (rfs : List (Nat × Nat)) (ring : List Entry) (t : Int) (
 example : (match ntsReplicaMap [(1, 1)] [(0, ⟨1, 1, 1⟩), (10, ⟨2, 3, 1⟩)] with
      | .ok rr => (replicasFor rr 5).map (·.2)
      | .error _ => none) = some [⟨1, 1, 1⟩] := by decide
+
+/-! ## ring construction (`newTokenRing`) and the theorems above stated from the CLUSTER LAYOUT
+
+All theorems above carry the hypothesis `Sorted ring`.  It is discharged here: for every list of hosts with their
+tokens — any number of hosts, any number of tokens per host (vnodes, none), given in any order — in which no token is
+claimed twice, the ring `newTokenRing` builds is strictly ascending and holds exactly the (token, host) pairs of the
+layout; and that arrangement is unique, so ANY correct sorting algorithm (Go's `sort.Sort` is not stable and is free to
+change) returns the list the model computes.  Cassandra's `TokenMetadata.sortedTokens` with `tokenToEndpointMap` is
+characterised the same way (`cring` below): the ascending arrangement of the layout's pairs. -/
+
+/-- `C10_ring_sorted`: the ring built from any layout with pairwise distinct tokens is strictly ascending and is a
+rearrangement of exactly the layout's (token, host) pairs (nothing lost, nothing invented, multiplicities kept). -/
+theorem C10_ring_sorted (hosts : List (Host × List Int)) (hd : DistinctTokens hosts) :
+    Sorted (buildRing hosts) ∧ (buildRing hosts).Perm (allPairs hosts) :=
+  ⟨buildRing_sorted hosts hd, buildRing_perm hosts⟩
+
+/-- `C10_ring_unique`: whatever a sorting algorithm does, if its result is ascending and a rearrangement of the
+layout's pairs it IS the model's ring — the instability of `sort.Sort` cannot be observed on distinct tokens. -/
+theorem C10_ring_unique (hosts : List (Host × List Int)) (hd : DistinctTokens hosts) (ring : List Entry)
+    (hs : Sorted ring) (hp : ring.Perm (allPairs hosts)) : ring = buildRing hosts :=
+  sorted_perm_unique ring (buildRing hosts) hs (buildRing_sorted hosts hd) (hp.trans (buildRing_perm hosts).symm)
+
+/-- the ring does not depend on the order in which the hosts are reported (nor on the order of a host's tokens) -/
+theorem C10_ring_order_irrelevant (h₁ h₂ : List (Host × List Int)) (hd : DistinctTokens h₁)
+    (hp : (allPairs h₁).Perm (allPairs h₂)) : buildRing h₁ = buildRing h₂ := by
+  have hd₂ : DistinctTokens h₂ := by
+    unfold DistinctTokens at hd ⊢
+    exact (hp.map (fun e : Entry => e.1)).nodup_iff.mp hd
+  exact C10_ring_unique h₂ hd₂ (buildRing h₁) (buildRing_sorted h₁ hd) ((buildRing_perm h₁).trans hp)
+
+example : buildRing [(⟨2, 1, 1⟩, [10, -5]), (⟨1, 1, 2⟩, [3])] = [(-5, ⟨2, 1, 1⟩), (3, ⟨1, 1, 2⟩), (10, ⟨2, 1, 1⟩)] := by
+  decide
+example : DistinctTokens [(⟨2, 1, 1⟩, [10, -5]), (⟨1, 1, 2⟩, [3])] := by unfold DistinctTokens; decide
+
+/-- `C10_cluster_owner`: from the layout — the host `GetHostForToken` returns on the ring the driver builds is the owner
+of the token on Cassandra's ring `cring` (first token ≥ t, else the smallest: the range (previous token, token] with
+wrap-around). -/
+theorem C10_cluster_owner (hosts : List (Host × List Int)) (hd : DistinctTokens hosts) (cring : List Entry)
+    (hcs : Sorted cring) (hcp : cring.Perm (allPairs hosts)) (t : Int) :
+    getHostForToken (buildRing hosts) t = cring[Spec.ownerIdx cring t]? := by
+  rw [C10_ring_unique hosts hd cring hcs hcp]
+  by_cases hne : buildRing hosts = []
+  · rw [hne]; rfl
+  · obtain ⟨_, hget, _⟩ := C10_lookup_owner (buildRing hosts) t (buildRing_sorted hosts hd) hne
+    rw [hget, C10_lookup _ t (buildRing_sorted hosts hd)]
+
+/-- `C10_cluster_simple`: from the layout, SimpleStrategy — replicas of every token = Cassandra's on Cassandra's ring. -/
+theorem C10_cluster_simple (hosts : List (Host × List Int)) (hd : DistinctTokens hosts) (cring : List Entry)
+    (hcs : Sorted cring) (hcp : cring.Perm (allPairs hosts)) (hne : cring ≠ []) (rf : Nat) (t : Int) :
+    (replicasFor (simpleReplicaMap rf (buildRing hosts)) t).map (·.2) = some (Spec.simple cring rf t) := by
+  have he := C10_ring_unique hosts hd cring hcs hcp
+  rw [← he]
+  exact C10_simple cring rf t hcs hne
+
+/-- `C10_cluster_nts`: from the layout, NetworkTopologyStrategy — `replicaMap` does not panic and the replicas of every
+token are Cassandra's on Cassandra's ring (vnodes, uneven racks, rf 0 / above the DC size, unknown DCs). -/
+theorem C10_cluster_nts (hosts : List (Host × List Int)) (hd : DistinctTokens hosts) (cring : List Entry)
+    (hcs : Sorted cring) (hcp : cring.Perm (allPairs hosts)) (rfs : List (Nat × Nat)) (hkeys : (rfs.map (·.1)).Nodup)
+    (t : Int) :
+    (match ntsReplicaMap rfs (buildRing hosts) with
+     | .ok rr => (match replicasFor rr t with
+        | some e => some e.2
+        | none => some [])
+     | .error _ => none) = some (Spec.nts cring rfs t) := by
+  have he := C10_ring_unique hosts hd cring hcs hcp
+  rw [← he]
+  exact C10_nts_lookup rfs cring t hcs hkeys
+
+example : (replicasFor (simpleReplicaMap 2 (buildRing [(⟨2, 1, 1⟩, [10, -5]), (⟨1, 1, 2⟩, [3])])) 4).map (·.2)
+    = some [⟨2, 1, 1⟩, ⟨1, 1, 2⟩] := by decide
 
 /-! ## regression: the inputs of the repaired findings -/
 
